@@ -444,3 +444,281 @@ func init() {
 			return out
 		}})
 }
+
+// PARAMSTORE — a constructor stores the parameter it is given under the field of the same name.
+//
+// `cmb.threshold = min(threshold, len(others))` ("defensive clamp") makes a Combiner built with t = N and the documented
+// list of the *other* parties work with t-1: it accepts too few parties and reconstructs a wrong key.
+//
+// Rule: in every function named New… / new…, an assignment `x.f = E` or literal element `f: E` whose field name is also
+// the name of a parameter of the function has E equal to that parameter — the identifier itself, a conversion or a
+// dereference/address of it, or a method call on it without further operands (`params.GetRLWEParameters()`), or a copy
+// (`slices.Clone(p)`, `append([]T{}, p...)`) — not an expression that combines it with something else.
+func scanParamStore(c *core.Ctx) []ob {
+	var out []ob
+	n := 0
+	c.FuncDecls(func(pk *packages.Package, file *ast.File, fd *ast.FuncDecl) {
+		if fd.Body == nil || fileIsTestSupport(c.Program, fd.Pos()) || inExamples(pk) {
+			return
+		}
+		if !strings.HasPrefix(fd.Name.Name, "New") && !strings.HasPrefix(fd.Name.Name, "new") {
+			return
+		}
+		info := pk.TypesInfo
+		fn, _ := info.Defs[fd.Name].(*types.Func)
+		if fn == nil {
+			return
+		}
+		sig := fn.Type().(*types.Signature)
+		params := map[string]types.Object{}
+		for i := 0; i < sig.Params().Len(); i++ {
+			p := sig.Params().At(i)
+			if p.Name() != "" && p.Name() != "_" {
+				params[p.Name()] = p
+			}
+		}
+		if len(params) == 0 {
+			return
+		}
+		fkey := core.FuncKey(pk, fd)
+		// isParam: E is the parameter itself, possibly wrapped without other operands
+		var isParam func(e ast.Expr, p types.Object) bool
+		isParam = func(e ast.Expr, p types.Object) bool {
+			switch x := unparen(e).(type) {
+			case *ast.Ident:
+				return info.Uses[x] == p
+			case *ast.StarExpr:
+				return isParam(x.X, p)
+			case *ast.UnaryExpr:
+				return x.Op == token.AND && isParam(x.X, p)
+			case *ast.SliceExpr:
+				return isParam(x.X, p)
+			case *ast.CallExpr:
+				// conversion T(p), method p.M() without operands, Clone(p), append(x, p...), or the parameter is a factory
+				// that is called to make the field
+				if id, ok := unparen(x.Fun).(*ast.Ident); ok && info.Uses[id] == p {
+					return true
+				}
+				if tv, ok := info.Types[x.Fun]; ok && tv.IsType() && len(x.Args) == 1 {
+					return isParam(x.Args[0], p)
+				}
+				if se, ok := unparen(x.Fun).(*ast.SelectorExpr); ok {
+					if len(x.Args) == 0 && isParam(se.X, p) {
+						return true
+					}
+					if len(x.Args) == 1 && (strings.Contains(se.Sel.Name, "Clone") || strings.Contains(se.Sel.Name, "Copy")) {
+						return isParam(x.Args[0], p)
+					}
+				}
+				if id, ok := unparen(x.Fun).(*ast.Ident); ok && id.Name == "append" && len(x.Args) == 2 {
+					return isParam(x.Args[1], p)
+				}
+			}
+			return false
+		}
+		mentions := func(e ast.Expr, p types.Object) bool {
+			f := false
+			ast.Inspect(e, func(y ast.Node) bool {
+				if id, ok := y.(*ast.Ident); ok && info.Uses[id] == p {
+					f = true
+				}
+				return !f
+			})
+			return f
+		}
+		reassigned := map[types.Object]bool{}
+		ast.Inspect(fd.Body, func(x ast.Node) bool {
+			switch v := x.(type) {
+			case *ast.AssignStmt:
+				for _, l := range v.Lhs {
+					if id, ok := l.(*ast.Ident); ok {
+						if o := info.Uses[id]; o != nil {
+							reassigned[o] = true
+						}
+					}
+				}
+			case *ast.IncDecStmt:
+				if id, ok := v.X.(*ast.Ident); ok {
+					if o := info.Uses[id]; o != nil {
+						reassigned[o] = true
+					}
+				}
+			}
+			return true
+		})
+		check := func(field string, e ast.Expr, at ast.Node) {
+			p, ok := params[field]
+			if !ok || !mentions(e, p) {
+				return // another source (a default, a derived object): not this rule's business
+			}
+			n++
+			key := fmt.Sprintf("PARAMSTORE:%s#%s", fkey, field)
+			if reassigned[p] {
+				out = append(out, withProps(violOb("PARAMSTORE", key, c.Rel(at.Pos()), fmt.Sprintf("%s assigns to its parameter %s before storing it under the field of that name: the object works with another value than the one the caller asked for", fkey, field)), propsForKey(fkey)...))
+				return
+			}
+			if isParam(e, p) {
+				out = append(out, withProps(okOb("PARAMSTORE", key, c.Rel(at.Pos()), "the field receives the parameter of the same name as it is", true), propsForKey(fkey)...))
+			} else {
+				out = append(out, withProps(violOb("PARAMSTORE", key, c.Rel(at.Pos()), fmt.Sprintf("%s stores %s under the field %s although the parameter of that name is given: the object works with another value than the one the caller asked for", fkey, exprString(e), field)), propsForKey(fkey)...))
+			}
+		}
+		ast.Inspect(fd.Body, func(x ast.Node) bool {
+			switch v := x.(type) {
+			case *ast.AssignStmt:
+				if len(v.Lhs) != len(v.Rhs) || v.Tok != token.ASSIGN {
+					return true
+				}
+				for i, l := range v.Lhs {
+					if se, ok := unparen(l).(*ast.SelectorExpr); ok {
+						if sel := info.Selections[se]; sel != nil && sel.Kind() == types.FieldVal {
+							check(se.Sel.Name, v.Rhs[i], v)
+						}
+					}
+				}
+			case *ast.KeyValueExpr:
+				if id, ok := v.Key.(*ast.Ident); ok {
+					if _, isField := info.Uses[id].(*types.Var); isField || info.Uses[id] == nil {
+						check(id.Name, v.Value, v)
+					}
+				}
+			}
+			return true
+		})
+	})
+	c.Stats["paramstore_sites"] = n
+	return out
+}
+
+func init() {
+	core.Register(&core.Rule{Name: "PARAMSTORE", Wide: true, Props: []string{"C01", "C02", "C03", "C04", "C05", "C06", "C07", "C08", "C09", "C10", "C11", "C12", "C13", "C14", "C15", "C16", "C17", "C18", "C19", "C20"},
+		Doc: "in every New…/new… function, a field that has the name of a parameter and is assigned an expression mentioning that parameter receives the parameter itself (identifier, conversion, address, operand-free method call, copy), not a combination of it with something else",
+		Run: func(c *core.Ctx) []ob {
+			out := scanParamStore(c)
+			out = append(out, control(c, "PARAMSTORE", scanParamStore, "lvfixture.newQuorum")...)
+			out = append(out, core.Floor("PARAMSTORE", nil, "parameters stored under a field of the same name", c.Stats["paramstore_sites"], 20)...)
+			return out
+		}})
+}
+
+// NEGBOUND — a level that may be -1 is normalised before `level+1` bounds a loop.
+//
+// "No auxiliary modulus" is levelP = -1. Code that branches on it (`if levelP > -1 { … } else { levelP = 0; … }`) and then
+// runs `for k := 0; k < levelP+1; k++` over the primes of one digit relies on the assignment in the else arm: without it
+// the loop runs zero times and, for the collective evaluation key, the term sk_in·w is never added (the key encrypts 0).
+//
+// Rule: when a function tests an integer variable v against -1 (`v > -1`, `v >= 0`, `v != -1`, `v == -1`, `v < 0`) in an
+// `if` with both arms, and a later `for` statement has `v+1` in its condition, the arm in which v is -1 assigns v.
+func scanNegBound(c *core.Ctx) []ob {
+	var out []ob
+	n := 0
+	c.FuncDecls(func(pk *packages.Package, file *ast.File, fd *ast.FuncDecl) {
+		if fd.Body == nil || fileIsTestSupport(c.Program, fd.Pos()) || inExamples(pk) {
+			return
+		}
+		info := pk.TypesInfo
+		fkey := core.FuncKey(pk, fd)
+		ast.Inspect(fd.Body, func(x ast.Node) bool {
+			is, ok := x.(*ast.IfStmt)
+			if !ok {
+				return true
+			}
+			eb, ok := is.Else.(*ast.BlockStmt)
+			if !ok {
+				return true
+			}
+			cond := unparen(is.Cond)
+			// `hasP := levelP > -1; if hasP {…}`: the test through a boolean local with a single definition
+			if cid, ok := cond.(*ast.Ident); ok {
+				if ds := kernelLenDefs(info, fd, info.Uses[cid]); len(ds) == 1 {
+					cond = unparen(ds[0])
+				}
+			}
+			be, ok := cond.(*ast.BinaryExpr)
+			if !ok {
+				return true
+			}
+			id, ok := unparen(be.X).(*ast.Ident)
+			if !ok {
+				return true
+			}
+			v, ok := info.Uses[id].(*types.Var)
+			if !ok || v.IsField() {
+				return true
+			}
+			tv, ok := info.Types[be.Y]
+			if !ok || tv.Value == nil {
+				return true
+			}
+			cst := tv.Value.ExactString()
+			// which arm has v == -1 (v < 0)?
+			var negArm *ast.BlockStmt
+			switch {
+			case (be.Op == token.GTR && cst == "-1") || (be.Op == token.GEQ && cst == "0") || (be.Op == token.NEQ && cst == "-1"):
+				negArm = eb
+			case (be.Op == token.EQL && cst == "-1") || (be.Op == token.LSS && cst == "0") || (be.Op == token.LEQ && cst == "-1"):
+				negArm = is.Body
+			default:
+				return true
+			}
+			// a later loop bounded by v+1
+			var loop *ast.ForStmt
+			ast.Inspect(fd.Body, func(y ast.Node) bool {
+				fs, ok := y.(*ast.ForStmt)
+				if !ok || fs.Pos() < is.End() || fs.Cond == nil || loop != nil {
+					return true
+				}
+				ast.Inspect(fs.Cond, func(z ast.Node) bool {
+					if b2, ok := z.(*ast.BinaryExpr); ok && b2.Op == token.ADD {
+						if i2, ok := unparen(b2.X).(*ast.Ident); ok && info.Uses[i2] == v {
+							if t2, ok := info.Types[b2.Y]; ok && t2.Value != nil && t2.Value.ExactString() == "1" {
+								loop = fs
+							}
+						}
+					}
+					return true
+				})
+				return true
+			})
+			if loop == nil {
+				return true
+			}
+			n++
+			key := fmt.Sprintf("NEGBOUND:%s#%s", fkey, v.Name())
+			assigned, leaves := false, false
+			ast.Inspect(negArm, func(y ast.Node) bool {
+				switch s := y.(type) {
+				case *ast.AssignStmt:
+					for _, l := range s.Lhs {
+						if i3, ok := l.(*ast.Ident); ok && info.Uses[i3] == v {
+							assigned = true
+						}
+					}
+				case *ast.ReturnStmt:
+					leaves = true
+				}
+				return true
+			})
+			if assigned || leaves {
+				out = append(out, withProps(okOb("NEGBOUND", key, c.Rel(is.Pos()), "the arm in which the level is -1 assigns it (or leaves) before it bounds a loop", true), propsForKey(fkey)...))
+			} else {
+				out = append(out, withProps(violOb("NEGBOUND", key, c.Rel(loop.Pos()), fmt.Sprintf("%s tests %s against -1 at %s and later bounds a loop by %s+1 without assigning %s in the arm where it is -1: the loop runs zero times there", fkey, v.Name(), c.Rel(is.Pos()), v.Name(), v.Name())), propsForKey(fkey)...))
+			}
+			return true
+		})
+	})
+	c.Stats["negbound_sites"] = n
+	return out
+}
+
+func init() {
+	core.Register(&core.Rule{Name: "NEGBOUND", Props: []string{"C14", "C04", "C16", "C03"},
+		Doc: "when an if/else tests an integer variable against -1 and a later for statement has `v+1` in its condition, the arm in which v is -1 assigns v (or returns)",
+		Run: func(c *core.Ctx) []ob {
+			out := scanNegBound(c)
+			for _, o := range control(c, "NEGBOUND", scanNegBound, "lvfixture.digitsOf") {
+				out = append(out, withProps(o, "C14", "C04"))
+			}
+			return out
+		}})
+}
